@@ -230,6 +230,8 @@ def templates(col, lang, depths, flat_lines, deep_all=False):
         col.eval({"lang": lang, "text": t, "entry": ["rel-file"] if len(t) % 5 == 0 else []}, nontrivial=_startable(lang, t), labels=["class:header-cut", f"lang:{lang}"])
     for t in M.bodiless_templates(lang):
         col.eval({"lang": lang, "text": t, "entry": ["scan_path"]}, nontrivial=True, labels=["class:bodiless-header", f"lang:{lang}"])
+    for t in M.continuation_templates(lang):
+        col.eval({"lang": lang, "text": t, "entry": ["scan_path"] if len(t) % 7 == 0 else []}, nontrivial=True, labels=["class:line-continuation", f"lang:{lang}"])
     for d in depths:
         for kind, t in M.deep_templates(lang, d):
             if d > 1000 and kind not in ("deep_nested_functions", "deep_nested_defs", "deep_blocks", "deep_parens") and d not in depths[:-1] and not deep_all:
